@@ -10,7 +10,7 @@ __le__ / __lt__ / __eq__ / combine / get_closer_logic / most_generic_logic are i
   most_generic_logic(S) is in S and above every element of S."""
 import itertools
 
-from ..absint import AbsRaise, AObj, Unsupported
+from ..absint import AbsRaise, AObj, Unsupported, ListIter
 from ..common import get_repo, parallel_map
 from .. import proc
 from ..proc import Shape, BOOL
@@ -159,12 +159,13 @@ def _job(part):
             out.append(("ok", part, "%d (solver, request) pairs" % n_ok))
         else:
             closer = G("get_closer_logic")
-            which = {"closer-smtlib": smtlib_l, "closer-pysmt": pysmt_l, "closer-subset": pysmt_l[::3]}[part]
+            which = {"closer-smtlib": smtlib_l, "closer-pysmt": pysmt_l, "closer-subset": pysmt_l[::3], "closer-iterator": pysmt_l[1::2]}[part]
+            one_shot = part == "closer-iterator"       # the supported logics arrive as a one-shot iterable (the parameter is an Iterable)
             n_ok = 0
             for t in logics:
                 above = [s for s in which if le(t, s)]
                 try:
-                    r = it.call(closer, [list(which), t])
+                    r = it.call(closer, [ListIter(list(which)) if one_shot else list(which), t])
                 except AbsRaise as ex:
                     if above:
                         out.append(("bad", "%s|%s|raises" % (part, name(t)),
@@ -208,7 +209,7 @@ def _job(part):
     return res[0].detail
 
 
-PARTS = ["theory-order", "combine", "logic-order", "closer-smtlib", "closer-pysmt", "closer-subset", "families", "factory-select"]
+PARTS = ["theory-order", "combine", "logic-order", "closer-smtlib", "closer-pysmt", "closer-subset", "closer-iterator", "families", "factory-select"]
 
 
 def run(ctx):
